@@ -30,7 +30,7 @@ CLAIMED = {
 NOT_YET = {
  "C14": "decided by rustc's type checker over a corpus of programs: no schedule, clock, fault or history for a simulator to control (DESIGN.md section 4, C14)",
 }
-PENDING = {k: 'check not built yet (work in progress, see DESIGN.md)' for k in ['C04','C09','C13']}
+PENDING = {}
 
 CLAIMED.update({
  "C02": ("fault_enumeration", "crash", "4.C02",
@@ -63,6 +63,22 @@ CLAIMED.update({
    "deterministic simulation: same seed under every configuration, child-process isolation, transcript equality"),
 })
 
+
+CLAIMED.update({
+ "C04": ("exploration", "shuttle", "4.C04",
+   "Real jammdb threads on shuttle's scheduler (its Mutex/RwLock replace std's through the one guarded hook; every operation on jammdb's five locks and every tracked SimOS call is a scheduling point). Scenario per seed: one or two reader threads against a writer performing two to four commits that each rewrite every key with a version tag on a database whose free list is already populated, so commits reuse pages; optionally a commit that grows the file. Oracle over the recorded history: every read of a reader shows exactly one version with exactly that version's key set and values, at least as new as the newest commit that had returned before the reader called tx(), and the same on every re-read. Schedules: seeded random, PCT (depth 1-5) and a seeded bounded-preemption scheduler; a failing schedule is recorded as the list of task choices, minimised (tail truncation, preemption removal) and replayed exactly.",
+   "sampling of schedules, not enumeration; sequentially consistent interleavings of lock operations and syscalls (jammdb has no atomics or lock-free code); shuttle's lock fairness differs from std's futex locks",
+   "deterministic simulation: seeded thread schedules (random / PCT / bounded preemption) over real code on shuttle primitives"),
+ "C09": ("exploration", "shuttle", "4.C09",
+   "Two or three writer threads each do read-modify-write increments of one counter (one commit may carry a 9 MiB value so that it grows the file), one or two reader threads loop open/read/close; in a quarter of the runs a writer holds its transaction open until a reader has completed a whole transaction. Oracles: a flag set while a write transaction is open is never found set by another writer; the final counter equals the number of successful commits; every reader sees a counter between the commits completed before it began and those started by the time it ended, never decreasing; shuttle reports no deadlock and no execution exceeds the step bound (bounded liveness, in steps).",
+   "every thread holds at most one transaction (the documented usage); starvation under unbounded unfair schedules is outside the statement",
+   "deterministic simulation: seeded thread schedules with deadlock and step-bound detection"),
+ "C13": ("exploration", "shuttle-mp", "4.C13",
+   "Openers of the same path run as simulated processes (shuttle tasks, each with its own descriptor, mapping and DB) over SimOS's flock table, which implements flock(2) per open file description; statx, open, fallocate, write, fsync, flock, mmap and close on the file are scheduling points, i.e. every ordering that can be forced at system-call boundaries. Two or three openers, file pre-existing or not: open, check that the marker of every opener that closed before this open began is present, commit an own marker, close. Oracles: never two openers inside, no opener gets an error or a panic, every marker survives, no deadlock, step bound.",
+   "the kernel's own flock and real cross-process behaviour are not run; the lock table is a stub with flock(2) semantics",
+   "deterministic simulation: openers as simulated processes over a simulated file lock, seeded orderings at syscall boundaries"),
+})
+
 def main():
     checks=[]
     for pid,(lvl,eng,ref,text,note,tech) in sorted(CLAIMED.items()):
@@ -78,7 +94,7 @@ def main():
           "technique": tech,
         })
     na=[{"property_id":k,"reason":v} for k,v in sorted({**NOT_YET, **PENDING}.items())]
-    hooks_commits=[]
+    hooks_commits=['b8a28ca']
     m={
       "version":1,
       "setup_cmd":"./check build",
@@ -90,7 +106,8 @@ def main():
         "add_only": False,
       },
       "engines":[
-        {"name":"jsim","path":"/verif/sim","serves_properties":sorted(CLAIMED.keys()),"kind_free_text":"deterministic simulator: libc-level I/O seam (SimOS), reference model, independent file checker, seeded swarm generator, shrinker, replay"},
+        {"name":"jsim","path":"/verif/sim","serves_properties":[k for k in sorted(CLAIMED.keys()) if k not in ("C04","C09","C13")],"kind_free_text":"deterministic simulator on /repo unmodified: libc-level I/O seam (SimOS), reference model, independent file checker, seeded swarm generator, crash / fault / corruption engines, shrinker, replay; also the orchestrator of every check"},
+        {"name":"jsim-sh","path":"/verif/sim-sh","serves_properties":["C04","C09","C13"],"kind_free_text":"the same seam and harness with /repo built through a generated shadow manifest and --cfg jammdb_verif (shuttle locks): seeded thread / process schedules, recording and list-replay schedulers, schedule minimisation"},
       ],
       "checks":checks,
       "not_applicable":na,
